@@ -427,6 +427,7 @@ pub fn run(ctx: &Ctx) -> Report {
     for c in 0..chunks {
         cases.push(Case::Large(c, per));
     }
+    let cases = crate::report::shard(cases, ctx.shard);
     let threads = if miri { 1 } else { ctx.threads };
     let seed = ctx.seed;
     let mut rep = par_run(&cases, threads, |_i, c, rep| match c {
